@@ -195,7 +195,7 @@ def gen(rng, idx, tier):
         elif k < 0.9:
             # both lists at once, possibly naming the same manufacturer in different letter case
             cfg["include_manufacturer_code"] = pick
-            pop = sorted(set(pick + names), key=str.lower)
+            pop = sorted(set(pick + names), key=lambda x: (x.lower(), x))     # total order: set iteration order must not show
             cfg["exclude_manufacturer_code"] = [c10._case(rng, x) for x in rng.sample(pop, min(len(pop), rng.randrange(1, 3)))]
         k = rng.random()
         if k < 0.2:
